@@ -6,6 +6,14 @@ import (
 	"os"
 	"sort"
 	"strings"
+
+	"github.com/alpacahq/marketstore/v4/zzverif/simrt"
+)
+
+// minimisation state (set from the worker's flags)
+var (
+	keepOps    map[int]bool // nil = keep every generated operation
+	lastGenOps int          // number of operations the generator produced for the current seed
 )
 
 // Violation is one oracle failure.
@@ -152,6 +160,26 @@ func (r *Result) AddViolation(v *Violation) {
 	if n >= 2 || len(r.Violations) >= 40 {
 		return
 	}
+	if v.Replay == nil {
+		v.Replay = map[string]interface{}{}
+	}
+	// what the minimiser can shrink: generated operations, preemption budget
+	v.Replay["gen_ops"] = lastGenOps
+	v.Replay["preemptions"] = simrt.MaxPreemptSeen
+	if keepOps != nil {
+		var k []int
+		for i := range keepOps {
+			k = append(k, i)
+		}
+		sort.Ints(k)
+		v.Replay["keep_ops"] = k
+	}
+	if simrt.GlobalMaxPreempt >= 0 {
+		v.Replay["max_preempt"] = simrt.GlobalMaxPreempt
+	}
+	if simrt.GlobalSkipPreempt > 0 {
+		v.Replay["skip_preempt"] = simrt.GlobalSkipPreempt
+	}
 	r.Violations = append(r.Violations, v)
 }
 
@@ -162,8 +190,8 @@ func (r *Result) Finish() {
 		keys = append(keys, k)
 	}
 	sort.Strings(keys)
-	if len(keys) > 4000 {
-		keys = keys[:4000]
+	if len(keys) > 60000 {
+		keys = keys[:60000]
 	}
 	r.DistinctKey = keys
 }
